@@ -199,6 +199,7 @@ func main() {
 		r.Extra("seconds_"+ph.name, ph.secs)
 	}
 	r.Extra("seconds_harness", secs(t0))
+	r.Extra("oracle_cases", nExecCalls+nIOCalls)
 
 	r.Finish("programs: one struct + 2-5 methods over u8/u16/u32/u64 (refined or not), bool, arrays, consts; all " +
 		"operators incl. ~mod/~sat, as, op-assign, if/else-if, (labelled) while/break/continue, calls; range-directed so " +
@@ -456,8 +457,12 @@ func runExec(r *rec, tc *toolchain) {
 		}
 		r.Count("programs")
 	}
-	r.Extra("oracle_cases", ncalls)
+	r.Extra("exec_calls", ncalls)
+	nExecCalls = ncalls
 }
+
+// calls executed and compared by the exec and io phases (set when the phase ends)
+var nExecCalls, nIOCalls int
 
 type pendingCase struct {
 	ops, outs []string
